@@ -1280,6 +1280,20 @@ impl<T: From<f32> + Copy + SimdSize> JitBulkEval<T> {
             self.output_ptrs
                 .extend(self.out.iter_mut().map(|t| t.as_mut_ptr()));
 
+            #[cfg(fidget_verif)]
+            fidget_core::verif::emit(
+                "bulk_call",
+                &[
+                    ("scratch", 1),
+                    ("offset", 0),
+                    ("count", T::SIMD_SIZE as i64),
+                    ("n", n as i64),
+                    ("w", T::SIMD_SIZE as i64),
+                    ("out_len", self.out.first().map(|o| o.len() as i64).unwrap_or(-1)),
+                    ("vars", vars.len() as i64),
+                    ("outputs", tape.output_count() as i64),
+                ],
+            );
             unsafe {
                 (tape.fn_bulk)(
                     self.input_ptrs.as_ptr(),
@@ -1298,6 +1312,20 @@ impl<T: From<f32> + Copy + SimdSize> JitBulkEval<T> {
             self.output_ptrs.clear();
             self.output_ptrs
                 .extend(self.out.iter_mut().map(|v| v.as_mut_ptr()));
+            #[cfg(fidget_verif)]
+            fidget_core::verif::emit(
+                "bulk_call",
+                &[
+                    ("scratch", 0),
+                    ("offset", 0),
+                    ("count", m as i64),
+                    ("n", n as i64),
+                    ("w", T::SIMD_SIZE as i64),
+                    ("out_len", self.out.first().map(|o| o.len() as i64).unwrap_or(-1)),
+                    ("vars", vars.len() as i64),
+                    ("outputs", tape.output_count() as i64),
+                ],
+            );
             unsafe {
                 (tape.fn_bulk)(
                     self.input_ptrs.as_ptr(),
@@ -1309,6 +1337,20 @@ impl<T: From<f32> + Copy + SimdSize> JitBulkEval<T> {
             // handle the remaining items by simply evaluating the *last* full
             // vector in the array again.
             if n != m {
+                #[cfg(fidget_verif)]
+                fidget_core::verif::emit(
+                    "bulk_call",
+                    &[
+                        ("scratch", 0),
+                        ("offset", (n - T::SIMD_SIZE) as i64),
+                        ("count", T::SIMD_SIZE as i64),
+                        ("n", n as i64),
+                        ("w", T::SIMD_SIZE as i64),
+                        ("out_len", self.out.first().map(|o| o.len() as i64).unwrap_or(-1)),
+                        ("vars", vars.len() as i64),
+                        ("outputs", tape.output_count() as i64),
+                    ],
+                );
                 self.input_ptrs.clear();
                 self.output_ptrs.clear();
                 unsafe {
